@@ -82,7 +82,9 @@ def c04_judge(cmds, res=None):
                 res.inconclusive += 1
             continue
         if fans != ans:
-            bad.append(("incremental-vs-fresh", i, ans, fans))
+            # symptom: an earlier check-sat that failed with an error (state possibly left inconsistent)
+            errs = [_errkind(r2) for c2, r2 in zip(cmds[:i], resp[:i]) if c2["k"] == "check-sat" and sr.is_error(r2)]
+            bad.append(("incremental-vs-fresh", i, ans, fans, "after-" + errs[0] if errs else "noerr"))
     # the same history with all get-* queries removed must give the same answers
     noq = [c for c in cmds if not c["k"].startswith("get-")]
     if len(noq) != len(cmds) and not run.timeout:
@@ -194,7 +196,12 @@ def c05_run(decls, body, options, logic_name):
     cmds += decls + body
     run, resp, last = sr.execute(cmds, cpu_s=6)
     ans = [sr.answer_of(r) for c, r in zip(cmds, resp) if c["k"] == "check-sat"]
-    return cmds, ans, run
+    # commands (other than check-sat) answered with an error: configurations that reject different
+    # commands solve different problems and are not compared
+    rej = tuple(i for i, (c, r) in enumerate(zip(cmds, resp)) if c["k"] not in ("set-option", "set-logic", "check-sat")
+                and sr.is_error(r))
+    rej = tuple(i - len(options) for i in rej)
+    return cmds, ans, run, rej
 
 
 def c05_judge(decls, body, variants, res=None):
@@ -202,7 +209,7 @@ def c05_judge(decls, body, variants, res=None):
     bad = []
     nchecks = len(runs[0][1])
     for k in range(nchecks):
-        col = [(r[1][k] if k < len(r[1]) else None) for r in runs]
+        col = [(r[1][k] if (k < len(r[1]) and r[3] == runs[0][3]) else None) for r in runs]
         if res is not None:
             res.evals += sum(1 for a in col if a in ("sat", "unsat"))
         if "sat" in col and "unsat" in col:
@@ -217,7 +224,9 @@ def c05_case(param):
     variants = c05_variants(seed, logic, incremental, k)
     bad, runs = c05_judge(decls, body, variants, res)
     res.inc("logic_" + logic)
-    for cmds, ans, run in runs:
+    for cmds, ans, run, rej in runs:
+        if rej != runs[0][3]:
+            res.inc("variant_rejects_other_commands")
         res.inc("engine_" + configs.engine_of(sr.option_state(cmds)["options"]))
         if run.timeout:
             res.inc("timeout")
